@@ -111,6 +111,7 @@ def check(ix, rep):
             rep.analysed(_de)
             _ne += _te.check_entry_verbatim(ix, rep, _de, _m.kind)
     rep.floor('data-entry stores', _ne, 1)
+    rep.floor('specification wrappers handing the data on', _te.check_wrapper_verbatim(ix, rep), 2)
     # a robustness value is a number, never a flag: in the dense-time offline code no value emitted in a sample (or anything it is computed from)
     # is used for its truth value
     from sa.rules import truthy as _tr
